@@ -299,6 +299,9 @@ func (s *Solver) emit(t *Term) string {
 	if t.Op == "bvcount" {
 		return s.emit(expandCount(t))
 	}
+	if t.Op == "bcat" && len(t.Args) > 2 {
+		return s.emit(nestBcat(t))
+	}
 	var b strings.Builder
 	b.WriteByte('(')
 	if t.Op == "uf" {
